@@ -25,13 +25,19 @@ def known_findings() -> dict[str, dict]:
     """id -> entry of the committed known_findings.json (never written at run time)."""
     global _KNOWN_CACHE
     if _KNOWN_CACHE is None:
-        path = os.path.join(verif_home(), "known_findings.json")
-        try:
-            with open(path) as fh:
-                data = json.load(fh)
-            _KNOWN_CACHE = {f["id"]: f for f in data.get("findings", [])}
-        except FileNotFoundError:
-            _KNOWN_CACHE = {}
+        import glob
+
+        _KNOWN_CACHE = {}
+        paths = [os.path.join(verif_home(), "known_findings.json")]
+        paths += sorted(glob.glob(os.path.join(verif_home(), "known_findings.d", "*.json")))  # staging area while building
+        for path in paths:
+            try:
+                with open(path) as fh:
+                    data = json.load(fh)
+            except FileNotFoundError:
+                continue
+            for f in data.get("findings", []):
+                _KNOWN_CACHE[f["id"]] = f
     return _KNOWN_CACHE
 
 
